@@ -162,7 +162,7 @@ impl Prop for C19 {
          one distinguishing selector per texel position, every alpha nibble at every position, and fully transparent / fully opaque alpha planes over arbitrary colour words. Oracle: per-pixel reference decoders written from the format definitions: pixel (x, y) comes from its Z-order position in its 8x8 tile (4x4 ETC block, 2x2 blocks per tile); ETC1 colours exactly per the Khronos rules for blocks whose differential sums stay in 0..=31 \
          (others: no colour oracle, but no panic and identical output in both builds); every other channel within one quantisation step of the linear expansion of its source bits; alpha 255 where the format has none; A8 colour merely constant; output length 4*w*h, dimensions echoed. \
          GameCube: ColorFormat::RGB5A3.decode over all 65536 values; Tpl::extract_textures on single-image CI8 TPLs with RGB5A3 palettes for sizes 1..=64 x 1..=64 (every width x a few heights and vice versa in the enumerated tier), 8x4 blocks, cropped to the stated size. Both builds, per-case output digests compared between them. \
-         TPL palettes: 1..=256 entries, 1 in 13 with 257..=1 024 (only the first 256 are reachable by an 8-bit index). Non-trivial: the payload is not constant. Distinct = distinct case value."
+         TPL palettes: 1..=256 entries, 1 in 13 with 257..=1 024 (only the first 256 are reachable by an 8-bit index). One small texture in three is decoded after, on the same thread, the same container was read once and a CGFX file with a half-length payload in another format of the same bits per pixel was read (fails part-way; outcomes ignored). Non-trivial: the payload is not constant. Distinct = distinct case value."
             .into()
     }
     fn assumptions() -> Vec<String> {
@@ -261,6 +261,17 @@ impl Prop for C19 {
                 let payload = payload_for(fmt, w, h, fill);
                 let tex = Tex { name: "tex".into(), w, h, fmt, payload: payload.clone(), mip_tail: Vec::new() };
                 let file = build_ctpk(&[tex], 0, &|s| sjis_encode(s).unwrap_or_default());
+                // prior history on this thread for one small texture in three (outcomes ignored): the same container is read once, then a CGFX file
+                // is read whose only texture has another format (same bits per pixel where one exists) and a payload that stops half-way
+                if crate::engine::prop::fnv(&payload) % 3 == 0 && w * h <= 128 * 128 {
+                    let me = FORMATS.iter().position(|f| *f == fmt).unwrap_or(0);
+                    let other = (1..9).map(|k| FORMATS[(me + k) % 9]).find(|f| f.bpp() == fmt.bpp()).unwrap_or(FORMATS[(me + 1) % 9]);
+                    let half: Vec<u8> = payload.iter().cycle().take(other.payload_len(w, h) / 2).cloned().collect();
+                    let broken = reftex::build_cgfx(&[Tex { name: "t".into(), w, h, fmt: other, payload: half, mip_tail: Vec::new() }], 0);
+                    super::prior::quiet(|| ctpk::read(&file.bytes).is_ok());
+                    super::prior::quiet(|| mila::cgfx::read(&broken.bytes).is_ok());
+                    cx.label("after-a-failed-decode-in-another-format-on-this-thread");
+                }
                 let out = match cx.call(|| ctpk::read(&file.bytes)) {
                     Some(Ok(t)) => t,
                     Some(Err(e)) => {
